@@ -41,6 +41,12 @@ def gen(rng, seed):
     p.sink('sink', ins, {'proc_ms': rng.choice([[0], [10], [100]])}, balance_in=True)
     extras = []
     if rng.random() < 0.25:
+        p.by_id['sink']['config']['sources_low_latency'] = True      # documented joiner setting: no prefetch
+        extras.append('low-latency-joiner')
+    for i in range(k):
+        if rng.random() < 0.15:
+            p.by_id[f'w{i}']['config']['sources_low_latency'] = True
+    if rng.random() < 0.25:
         # empty frame sets ({}): only the id travels, and it too must go to exactly one branch
         p.by_id['src']['beh'].update(empty_mod=rng.choice([3, 4, 5]), empty_rem=rng.randint(0, 2))
         extras.append('empty-frames')
